@@ -61,6 +61,7 @@ def check_property(pid, tier='quick', seed=0, replay_only=None):
     kf_ids = {k['obligation']: k for k in kf}
 
     obligations = {}
+    degraded = set()
     lost = {}
     failed = {}
     undecided = []
@@ -80,6 +81,8 @@ def check_property(pid, tier='quick', seed=0, replay_only=None):
         for oid, msgs in r.failed.items():
             if oid in r.obligations and pid in r.obligations[oid]['props']:
                 failed[oid] = msgs
+        for fid in getattr(r, 'degraded', ()):
+            degraded.add((u, fid))
         for la in getattr(r, 'lost', []):
             oid = la['obligation']
             if oid in r.obligations and pid in r.obligations[oid]['props']:
@@ -178,7 +181,10 @@ def check_property(pid, tier='quick', seed=0, replay_only=None):
             info = obligations.get(oid) or {}
             path, found = RP.make_replay(pid, oid, msgs, info, seed)
             replays.append(path)
-            if found or info.get('property_level', True):
+            # a function one of whose proof hints lost its anchor is verified with an INCOMPLETE proof: a failure
+            # there is a proof failure, not a refutation, unless the replay exhibits an input
+            incomplete = (oid.split('/')[0], info.get('fn')) in degraded
+            if found or (info.get('property_level', True) and not incomplete):
                 confirmed.append(oid)
                 lines.append('VIOLATION property=%s replay=%s%s' % (pid, path, '' if found else ' no-failing-input-found'))
             else:
